@@ -306,6 +306,8 @@ pub struct ExternInfo {
     pub coq_ty: String,
     /// method name -> (return type, Coq function applied to the receiver)
     pub methods: Vec<(String, Ty, String)>,
+    /// argument types of the methods that take arguments (`name(t1,t2):ret:coqfn`)
+    pub margs: BTreeMap<String, Vec<Ty>>,
     /// for an abstract type of a macro template: the macro parameter (a table row) every member is applied to first
     pub row: Option<String>,
     /// associated constants: name -> (type, Coq function)
